@@ -263,7 +263,7 @@ def run(tier, seed):
                 "values: complete small alphabets per type incl. None/empty/1/2-element containers. non-trivial = distinct (shape, value) cases that passed every clause" % (
                     len(annotations()), "all (thorough: all value pairs; quick: 3x2 values per pair)"),
         "case_kinds": dict(labels), "classes_generated": len(_CLASSES), "exhaustive": True,
-        "samples": [{"case": label, "object": repr(obj)[:160], "toJson": repr(obj.toJson())[:160]} for obj, label, ident in itertools.islice(cases(tier), 150, 20000, 6000)],
+        "samples": core.safe_samples(lambda: [{"case": label, "object": repr(obj)[:160], "toJson": repr(obj.toJson())[:160]} for obj, label, ident in itertools.islice(cases(tier), 150, 20000, 6000)]),
     }
     rep.assumptions = ["fields hold values of their annotated types; None only for container fields; enum member names upper-case (as documented)"]
     return rep
